@@ -643,6 +643,7 @@ pub struct LintOut {
 
 /// `RVParser::run` — exactly what the editor integration calls.
 pub fn run_entry(files: &Files, faults: &[(String, Fault)]) -> Result<Vec<Diag>, Panic> {
+    hooks_reset();
     guarded(|| {
         let reader = MemReader::new(files).with_faults(faults);
         let mut p = RVParser::new(reader);
@@ -657,6 +658,7 @@ pub fn run_entry(files: &Files, faults: &[(String, Fault)]) -> Result<Vec<Diag>,
 /// The same pipeline, staged by hand so that every diagnostic carries its code.
 /// Items are returned in the order the library sorts them.
 pub fn lint_with(files: &Files, faults: &[(String, Fault)]) -> Result<LintOut, Panic> {
+    hooks_reset();
     guarded(|| {
         let reader = MemReader::new(files).with_faults(faults);
         let mut p = RVParser::new(reader);
